@@ -132,6 +132,17 @@ theorem get_importUnit (t0 : Tbl κ Unit) (ks : List κ) (k : κ) :
     · simp [hx]
     · simp [hx, Ne.symm hx, eq_comm]
 
+/-- Writing the flag `()` under every key of a list, on top of `t0`. -/
+def keysOn (t0 : Tbl κ Unit) (ks : List κ) : Tbl κ Unit := ks.foldl (fun t x => t.set x ()) t0
+
+theorem get_keysOn (t0 : Tbl κ Unit) (ks : List κ) (k : κ) :
+    get (keysOn t0 ks) k = some () ↔ k ∈ ks ∨ get t0 k = some () := get_importUnit t0 ks k
+
+theorem get_unit_iff_mem_keys {t : Tbl κ Unit} {k : κ} : get t k = some () ↔ k ∈ t.keys := by
+  constructor
+  · intro h; exact mem_keys_of_get h
+  · intro h; obtain ⟨v, hv⟩ := get_of_mem_keys h; exact hv
+
 end Tbl
 
 /-! ### export lists -/
@@ -333,6 +344,20 @@ def providersInto (ps : List Provider) (s : State) : State :=
     provActive := Tbl.importOn s.provActive ((ps.filter (isActive (·.status))).map fun p => (p.addr, p))
     provInactive := Tbl.importOn s.provInactive ((ps.filter (isInactive (·.status))).map fun p => (p.addr, p)) }
 
+def sessionsInto (xs : List Session) (p : SessionParams) (s : State) : State :=
+  { s with
+    params := { s.params with sessDelay := p.delay, proof := p.proof }
+    sessions := Tbl.importOn s.sessions (xs.map fun x => (x.id, x))
+    sessForAcc := Tbl.keysOn s.sessForAcc (xs.map fun x => (x.addr, x.id))
+    sessForNode := Tbl.keysOn s.sessForNode (xs.map fun x => (x.node, x.id))
+    sessForSub := Tbl.keysOn s.sessForSub (xs.map fun x => (x.sub, x.id))
+    sessForAlloc := Tbl.keysOn s.sessForAlloc (xs.map fun x => (x.sub, x.addr, x.id))
+    sessQ := Tbl.keysOn s.sessQ (xs.map fun x => (x.inactiveAt, x.id))
+    sessCount := some (maxId (xs.map (·.id))) }
+
+theorem initSessions_eq (xs : List Session) (p : SessionParams) (s : State) : initSessions xs p s = sessionsInto xs p s := by
+  unfold initSessions; rw [initSessions_fold]; rfl
+
 /-- The state a successful re-import of `s` yields: the pure form of `initGenesis` on the export of `s`. -/
 def imported (s : State) : State :=
   let g := exportVpn s
@@ -340,7 +365,7 @@ def imported (s : State) : State :=
   let s2 := nodesInto g.nodes (setNodeParams s1 g.nodeParams)
   let s3 := plansInto g.plans s2
   let s4 := providersInto g.providers { s3 with params := { s3.params with provDeposit := g.providerParams.deposit, provShare := g.providerParams.share } }
-  let s5 := initSessions g.sessions g.sessionParams s4
+  let s5 := sessionsInto g.sessions g.sessionParams s4
   let s6 := initSubscriptions g.subscriptions g.subscriptionParams s5
   initMint (exportMint s) (initSwap (exportSwap s) s6)
 
@@ -365,7 +390,50 @@ theorem initGenesis_exported (s : State)
        pure (initSubscriptions (exportVpn s).subscriptions (exportVpn s).subscriptionParams
               (initSessions (exportVpn s).sessions (exportVpn s).sessionParams s4))) := rfl
   unfold initGenesis
-  rw [e5, e2, ok_bind, e3, ok_bind, e4, ok_bind, pure_bind']
+  rw [e5, e2, ok_bind, e3, ok_bind, e4, ok_bind, pure_bind', initSessions_eq]
   rfl
+
+/-! ### projections of the re-imported state -/
+
+section proj
+variable (s : State)
+theorem imported_deposits : (imported s).deposits = Tbl.importOn [] (exportTbl deposit.DepositKey s.deposits) := rfl
+theorem imported_nodeActive : (imported s).nodeActive = Tbl.importOn [] (((exportNodes s).filter (isActive (·.status))).map fun n => (n.addr, n)) := rfl
+theorem imported_nodeInactive : (imported s).nodeInactive = Tbl.importOn [] (((exportNodes s).filter (isInactive (·.status))).map fun n => (n.addr, n)) := rfl
+theorem imported_nodeQ : (imported s).nodeQ = Tbl.keysOn [] (((exportNodes s).filter (isActive (·.status))).map fun n => (n.inactiveAt, n.addr)) := rfl
+theorem imported_planActive : (imported s).planActive = Tbl.importOn [] (((exportPlans s).filter (isActive (·.plan.status))).map fun it => (it.plan.id, it.plan)) := rfl
+theorem imported_planInactive : (imported s).planInactive = Tbl.importOn [] (((exportPlans s).filter (isInactive (·.plan.status))).map fun it => (it.plan.id, it.plan)) := rfl
+theorem imported_planForProv : (imported s).planForProv = Tbl.keysOn [] ((exportPlans s).map fun it => (it.plan.prov, it.plan.id)) := rfl
+theorem imported_nodeForPlan : (imported s).nodeForPlan = Tbl.keysOn [] (planLinks (exportPlans s)) := rfl
+theorem imported_planCount : (imported s).planCount = some (maxId ((exportPlans s).map (·.plan.id))) := rfl
+theorem imported_provActive : (imported s).provActive = Tbl.importOn [] (((exportProviders s).filter (isActive (·.status))).map fun p => (p.addr, p)) := rfl
+theorem imported_provInactive : (imported s).provInactive = Tbl.importOn [] (((exportProviders s).filter (isInactive (·.status))).map fun p => (p.addr, p)) := rfl
+theorem imported_sessions : (imported s).sessions = Tbl.importOn [] ((exportVals session.SessionKey s.sessions).map fun x => (x.id, x)) := rfl
+theorem imported_sessForAcc : (imported s).sessForAcc = Tbl.keysOn [] ((exportVals session.SessionKey s.sessions).map fun x => (x.addr, x.id)) := rfl
+theorem imported_sessForNode : (imported s).sessForNode = Tbl.keysOn [] ((exportVals session.SessionKey s.sessions).map fun x => (x.node, x.id)) := rfl
+theorem imported_sessForSub : (imported s).sessForSub = Tbl.keysOn [] ((exportVals session.SessionKey s.sessions).map fun x => (x.sub, x.id)) := rfl
+theorem imported_sessForAlloc : (imported s).sessForAlloc = Tbl.keysOn [] ((exportVals session.SessionKey s.sessions).map fun x => (x.sub, x.addr, x.id)) := rfl
+theorem imported_sessQ : (imported s).sessQ = Tbl.keysOn [] ((exportVals session.SessionKey s.sessions).map fun x => (x.inactiveAt, x.id)) := rfl
+theorem imported_sessCount : (imported s).sessCount = some (maxId ((exportVals session.SessionKey s.sessions).map (·.id))) := rfl
+theorem imported_swaps : (imported s).swaps = Tbl.importOn [] ((exportVals swap.SwapKey s.swaps).map fun x => (x.hash, x)) := by
+  show List.foldl _ _ _ = _; unfold Tbl.importOn; rw [List.foldl_map]; rfl
+theorem imported_inflations : (imported s).inflations = Tbl.importOn [] ((exportVals mint.InflationKey s.inflations).map fun i => (i.ts, i)) := by
+  show List.foldl _ _ _ = _; unfold Tbl.importOn; rw [List.foldl_map]; rfl
+theorem imported_params : (imported s).params = s.params := by
+  show _ = s.params
+  conv => rhs; rw [← params_rebuild s.params]
+  rfl
+/-- F5, for every state: nothing of the subscription module survives except its parameter. -/
+theorem imported_subscriptions_empty :
+    (imported s).subs = [] ∧ (imported s).subQ = [] ∧ (imported s).subForAcc = [] ∧ (imported s).subForNode = [] ∧
+    (imported s).subForPlan = [] ∧ (imported s).allocs = [] ∧ (imported s).payouts = [] ∧ (imported s).payQ = [] ∧
+    (imported s).payForAcc = [] ∧ (imported s).payForNode = [] ∧ (imported s).payForAccNode = [] ∧ (imported s).subCount = none :=
+  ⟨rfl, rfl, rfl, rfl, rfl, rfl, rfl, rfl, rfl, rfl, rfl, rfl⟩
+theorem imported_sdk :
+    (imported s).bank = s.bank ∧ (imported s).supply = s.supply ∧ (imported s).time = s.time ∧ (imported s).height = s.height ∧
+    (imported s).keyed = s.keyed ∧ (imported s).mintMax = s.mintMax ∧ (imported s).mintMin = s.mintMin ∧
+    (imported s).mintRate = s.mintRate ∧ (imported s).minterInfl = s.minterInfl :=
+  ⟨rfl, rfl, rfl, rfl, rfl, rfl, rfl, rfl, rfl⟩
+end proj
 
 end Hub.Model
